@@ -341,7 +341,9 @@ func e2eInner(t *testing.T) {
 	})
 
 	conf := filepath.Join(dir, "dhcpd.conf")
-	os.WriteFile(conf, []byte("network: \"10.77.0.0/24\"\ndynamic_range: \"10.77.0.100-10.77.0.103\"\nrouter: \"10.77.0.1\"\ndns: \"10.77.0.53\"\ndomain: \"e2e.test\"\nlease_duration: \"1m\"\n"), 0o644)
+	os.WriteFile(conf, []byte("network: \"10.77.0.0/24\"\ndynamic_range: \"10.77.0.100-10.77.0.103\"\nrouter: \"10.77.0.1\"\ndns: \"10.77.0.53\"\ndomain: \"e2e.test\"\nlease_duration: \"1m\"\n"+
+		// (a host name for the client that has to arrive as it is written here, dollar signs and braces included)
+		"client { key: \""+cliMAC.String()+"\" value { hostname: \"cli-$HOME-${USER}x$\" } }\n"), 0o644)
 	start := func(name string, args ...string) (*exec.Cmd, *bytes.Buffer) {
 		cmd := exec.Command(filepath.Join(dir, name), args...)
 		var buf bytes.Buffer
@@ -592,6 +594,11 @@ func e2eInner(t *testing.T) {
 					got := map[byte][]byte{}
 					for _, o := range rp.msg.opts {
 						got[o.code] = o.data
+					}
+					if bytes.Equal(rp.msg.chaddr, cliMAC) {
+						want[12] = []byte("cli-$HOME-${USER}x$")
+					} else if _, has := got[12]; has {
+						bad("c07", "e2e-options", "reply type %d to %x carries a host name (%q); only the client's entry has one", rp.typ, rp.msg.chaddr, got[12])
 					}
 					for k, v := range want {
 						if !bytes.Equal(got[k], v) {
